@@ -693,6 +693,12 @@ func TestVerif_C28(t *testing.T) {
 			t.Fatal(err)
 		}
 		rec.Eval(1)
+		if c.Part == "realpool" {
+			for _, f := range c28RunRealPool(c.Policy, c.DownAfter) {
+				rec.Violation("realpool/"+f.Clause, f.Detail, c)
+			}
+			return
+		}
 		if c.Part == "master" {
 			w := c28StartMaster(c)
 			select {
